@@ -333,7 +333,7 @@ impl Scenario for HmcSteps {
         "hmc_steps"
     }
     fn runs(&self, tier: Tier) -> u64 {
-        tier.pick(8000, 100_000)
+        tier.pick(8000, 250_000)
     }
     fn generate(&self, g: &mut Gen, _t: Tier, _i: u64) -> Value {
         let l = match g.range(0, 9) {
